@@ -6,16 +6,28 @@
           `finalize_select`).  The check validates the model against the implementation on every run.
 
    Staging (what is proved / what is covered by the correspondence against the executable Spec only):
-   - stage 1+2 PROVED: C01_pattern for BGP / group / UNION / GRAPH iri|var / VALUES+UNDEF / FILTER / BIND / sub-selects with
-     an explicit projection and [DISTINCT] [ORDER BY], FROM / FROM NAMED, any emitted plan;
+   - stage 1+2 PROVED: C01_pattern for BGP / group / UNION / GRAPH iri|var / VALUES+UNDEF / FILTER / BIND / nested groups
+     consisting of a single BIND of constants with a fresh target / sub-selects (explicit projection or SELECT star) with
+     [DISTINCT] [ORDER BY], FROM / FROM NAMED, any emitted plan; its hypotheses are decidable syntactic ones plus a typing
+     condition on the dataset view (C01_agree_syntactic, C01_pattern_syntactic);
    - stage 3 PROVED: C01_answer (SELECT [DISTINCT] .. [ORDER BY] without LIMIT / aggregates: multiset of rows and key
-     order), C01_order_by, C01_distinct, C01_limit, C01_groups (component theorems of the modifiers);
-   - NOT proved (_partial, correspondence only): sub-selects with aggregates / GROUP BY / LIMIT / SELECT *, the value of
-     the aggregates, LIMIT as "a legal cut" of the whole answer, groups consisting of a single BIND or FILTER,
-     FILTER / BIND inside GRAPH ?g that mention ?g. *)
+     order), C01_answer_limit (LIMIT with or without ORDER BY is a legal cut), C01_order_by, C01_distinct, C01_limit,
+     C01_groups (component theorems of the modifiers);
+   - NOT proved (_partial, correspondence against the executable Spec only), exactly:
+     (p1) sub-selects with a LIMIT (the generated ones have an ORDER BY over all their projected variables), with GROUP BY or
+          with aggregates; the VALUE of the aggregates SUM / MIN / MAX / AVG at top level and in sub-selects (C01_groups gives
+          the groups, C01_group_by_regression / C01_empty_sum_regression two computed instances);
+     (p2) FILTER / BIND inside GRAPH ?g that mention ?g while the group's own pattern binds ?g (when it does not, such a
+          FILTER is not wellscoped and outside the property);
+     (p3) single-element groups nested twice or more around a lone BIND ({ { BIND } } as an element of a group); the other
+          cases of (b) are settled: a nested group consisting of a single BIND of constants with a fresh target is proved, with
+          a bound target it is class C01-bind-target-sibling, with a variable argument - or consisting of a single FILTER,
+          which always mentions a variable - it is not wellscoped (the group binds nothing) and outside the property;
+     (p4) ORDER BY keys over columns that mix numbers with other terms or are partly unbound (C01_answer_sorted and
+          C01_answer_limit assume the comparator transitive on the key columns), ordering comparisons on non-integers. *)
 Require Import KV.Sparql.Base KV.Sparql.Syntax KV.Sparql.MuProofs KV.Sparql.JoinProofs KV.Sparql.Algebra KV.Sparql.Engine
         KV.Sparql.Lowering KV.Sparql.PlanEquiv KV.Sparql.Sem KV.Sparql.Bridge KV.Sparql.Classes KV.Sparql.ScanProofs
-        KV.Sparql.SemProofs KV.Sparql.ExecLemmas KV.Sparql.BridgeProofs KV.Sparql.IdemProofs KV.Sparql.EngineProofs KV.Sparql.PlanProofs
+        KV.Sparql.SemProofs KV.Sparql.ExecLemmas KV.Sparql.BridgeProofs KV.Sparql.IdemProofs KV.Sparql.Typing KV.Sparql.TypingProofs KV.Sparql.EngineProofs KV.Sparql.PlanProofs
         KV.Sparql.PatternProofs KV.Sparql.ModifierProofs.
 Require Import Permutation Sorted.
 
@@ -34,10 +46,11 @@ Print Assumptions C01_exec_input_join.
    in place, graph scope carried on scans) denotes the algebra's evaluation of the syntax tree, over the dataset view
    (default graph = duplicate-free merge of the FROM graphs, named = visible catalogued graphs, GRAPH ?g ranging over
    every visible graph including empty ones).
-   fragB: no sub-select under GRAPH ?g (class C01-subselect-in-graph-var), simple sub-selects, see Bridge.v.
+   fragB: no sub-select under GRAPH ?g (class C01-subselect-in-graph-var), sub-selects without aggregate / GROUP BY / LIMIT,
+   nested single-element groups only of a constant BIND with a fresh target, see Bridge.v.
    agree: the engine's two-valued FILTER evaluation and its CONCAT agree with the algebra's error-propagating ones on
    the rows the algebra feeds them - implied by the absence of the classes C01-not-of-error and C01-bind-arg-unbound
-   together with integer-typed ordering comparisons (that implication is not proved: partial). *)
+   together with integer-typed ordering comparisons (C01_agree_syntactic below). *)
 Theorem C01_lowering_is_algebra : forall ds q, dataset_ok ds ->
   let vw := mk_view ds (q_from q) (q_from_named q) in
   let ev := mk_eview ds (q_from q) (q_from_named q) in
@@ -58,6 +71,46 @@ Theorem C01_pattern : forall ds q p, dataset_ok ds ->
   exec ds ev None p [[]] ≡ₚ eval vw None (sel_where (q_sel q)).
 Proof. exact pattern_correct. Qed.
 Print Assumptions C01_pattern.
+
+(* The semantic hypothesis `agree` follows from syntactic ones: noerr (the complement of the classes C01-not-of-error and
+   C01-bind-arg-unbound: every variable under a `!` is certainly bound by the filter's group, every BIND argument by what
+   precedes the BIND, BIND targets are fresh) and typed (ordering comparisons see integers only: integer constants, and every
+   binding occurrence of a compared variable is the object of a pattern whose constant predicate has only integer objects in
+   the dataset view, or an integer / UNDEF VALUES column). *)
+Theorem C01_agree_syntactic : forall vw w, fragB None w = true -> noerr w = true -> typed vw w = true -> agree vw None w = true.
+Proof. exact agree_of_noerr_typed. Qed.
+Print Assumptions C01_agree_syntactic.
+
+(* C01_pattern with decidable syntactic hypotheses on the query plus the typing condition on the dataset view *)
+Theorem C01_pattern_syntactic : forall ds q p, dataset_ok ds ->
+  let vw := mk_view ds (q_from q) (q_from_named q) in
+  let ev := mk_eview ds (q_from q) (q_from_named q) in
+  let w := sel_where (q_sel q) in
+  proved_fragment q = true -> noerr w = true -> typed vw w = true ->
+  implementsb (lower_query (q_sel q)) p = true ->
+  exec ds ev None p [[]] ≡ₚ eval vw None w.
+Proof. exact pattern_correct_syntactic. Qed.
+Print Assumptions C01_pattern_syntactic.
+
+(* Scoping: a solution of a pattern binds only variables the pattern can bind (`sposs`: the in-scope variables). *)
+Theorem C01_scope : forall vw p active m x t, In m (eval vw active p) -> lookup m x = Some t -> In x (sposs p).
+Proof. exact eval_scope. Qed.
+Print Assumptions C01_scope.
+
+(* The nested group { BIND(CONCAT(constants) AS ?v) }: the parser flattens it into the enclosing group, where the engine
+   binds ?v in place; that is the algebra's join with the group's one-row answer as long as no row binds ?v already
+   (otherwise: class C01-bind-target-sibling).  Used by C01_pattern through fragB / lone_bind_ok. *)
+Theorem C01_const_bind_group : forall vw active args v G,
+  barg_vars args = [] -> all_wf G -> (forall b, In b G -> lookup b v = None) ->
+  join G (eval vw active (PGroup [PBind args v])) = map (bind_row args v) G.
+Proof. exact const_bind_group. Qed.
+Print Assumptions C01_const_bind_group.
+
+(* SELECT star in a sub-select: the projection on the variables of the pattern (in order of first occurrence) changes no
+   solution - which is why the engine, which does not project there, agrees.  Used by C01_pattern through simple_sel. *)
+Theorem C01_select_star : forall vw active w m, In m (eval vw active w) -> restrict (star_cols w []) m = m.
+Proof. exact select_star_id. Qed.
+Print Assumptions C01_select_star.
 
 (* The five known findings, on the model: each witness is implemented by the default plan, lies in its class, and the
    model's answer is NOT the algebra's. *)
@@ -91,6 +144,11 @@ Theorem C01_group_by_regression :
 Proof. exact group_by_regression. Qed.
 Print Assumptions C01_group_by_regression.
 
+(* Regression for the repaired finding C01-empty-sum-negative-zero (fix 15674d8). *)
+Theorem C01_empty_sum_regression : forall x, eagg_value ASum x [] = Some "0"%string /\ agg_value ASum x [] = Some "0"%string /\ "-0"%string <> "0"%string.
+Proof. exact empty_sum_regression. Qed.
+Print Assumptions C01_empty_sum_regression.
+
 (* ... and each witness violates a hypothesis of C01_pattern *)
 Theorem C01_witnesses_outside :
   proved_fragment wq_a = false /\ proved_fragment wq_b = false /\ proved_fragment wq_c = false /\
@@ -113,6 +171,24 @@ Theorem C01_answer_sorted : forall s rows, plain_sel s = true ->
   exists seq, finalize_select s rows = render (columns s) seq /\ StronglySorted (ob_le ob) seq.
 Proof. exact answer_sorted. Qed.
 Print Assumptions C01_answer_sorted.
+
+(* ... and with LIMIT (with or without ORDER BY; without, the comparator is trivially transitive: ob_le_nil_trans): the rows
+   returned are the first min(n, total) rows of SOME sequence that is sorted by the keys and is, rendered, a permutation of the
+   algebra's full answer before the cut - a legal cut. *)
+Theorem C01_answer_limit : forall s rows rows', noagg_sel s = true -> rows ≡ₚ rows' ->
+  let ob := match s with Sel _ _ _ _ ob _ => ob end in
+  let lim := match s with Sel _ _ _ _ _ l => l end in
+  Relations_1.Transitive (ob_le ob) ->
+  exists seq,
+    finalize_select s rows = apply_limit_rows lim (render (columns s) seq) /\
+    render (columns s) seq ≡ₚ render (columns s) (modifiers (nolimit_sel s) rows') /\
+    StronglySorted (ob_le ob) seq.
+Proof. exact answer_limit. Qed.
+Print Assumptions C01_answer_limit.
+
+Theorem C01_no_order_transitive : Relations_1.Transitive (ob_le []).
+Proof. exact ob_le_nil_trans. Qed.
+Print Assumptions C01_no_order_transitive.
 
 (* ORDER BY (apply_order_by / apply_subquery_order): a permutation of its input in which no row sorts after its successor. *)
 Theorem C01_order_by : forall ob l, esort ob l ≡ₚ l /\ Sorted (ob_le ob) (esort ob l).
@@ -146,3 +222,10 @@ Example C01_example :
   proved_fragment wq_ok = true /\ agree (mk_view wds1 [] []) None (sel_where (q_sel wq_ok)) = true /\
   wimpl wq_ok = true /\ List.length (wspec wds1 wq_ok) = 3%nat.
 Proof. exact example_ok. Qed.
+
+(* non-vacuity of the extensions: a nested constant-BIND group and a DISTINCT / ORDER BY sub-select with SELECT star and an
+   ordering FILTER satisfy the syntactic hypotheses of C01_pattern_syntactic *)
+Example C01_example_extensions :
+  proved_fragment wq_ok2 = true /\ noerr (sel_where (q_sel wq_ok2)) = true /\ typed (mk_view wds1 [] []) (sel_where (q_sel wq_ok2)) = true /\
+  wimpl wq_ok2 = true /\ wspec wds1 wq_ok2 = [[(0%N, E "s1"); (1%N, E "s2"); (2%N, "5"%string); (5%N, "kx"%string)]].
+Proof. exact example_ok2. Qed.
